@@ -22,6 +22,7 @@ type c10Op struct {
 	Data    model.Bytes `json:"data"`
 	Entropy model.Bytes `json:"entropy,omitempty"`
 	FailAt  int         `json:"fail_at,omitempty"`
+	Budget  int         `json:"byte_budget,omitempty"` // encrypt-fault: the source runs dry after this many octets (fails inside a read)
 	IV      model.Bytes `json:"iv,omitempty"`  // decrypt-valid: reference-built ciphertext
 	Pad     int         `json:"pad,omitempty"` // decrypt-valid: pad length used by the reference
 }
@@ -158,15 +159,20 @@ func c10Oracle(in c10In) probe.Outcome {
 			var ct []byte
 			var eL error
 			var failed bool
-			probe.WithEntropy(op.Entropy, op.FailAt, func(e *probe.Entropy) {
+			run := func(e *probe.Entropy) {
 				eL = probe.Try(func() error { var x error; ct, x = long.Encrypt(probe.Exact(op.Data)); return x })
 				failed = e.Failed
-			})
+			}
+			if op.Budget > 0 {
+				probe.WithEntropyBudget(op.Entropy, op.Budget, run)
+			} else {
+				probe.WithEntropy(op.Entropy, op.FailAt, run)
+			}
 			if probe.IsPanic(eL) {
 				return probe.Fail("step %d: Encrypt panics when the random source fails: %v", i, eL)
 			}
 			if failed && (eL == nil || ct != nil) {
-				return probe.Fail("step %d: random source failed at read %d but Encrypt returned a ciphertext / no error", i, op.FailAt)
+				return probe.Fail("step %d: random source failed (read %d / after %d octets) but Encrypt returned a ciphertext / no error", i, op.FailAt, op.Budget)
 			}
 			if !failed && eL != nil {
 				return probe.Fail("step %d: Encrypt failed although the random source did not: %v", i, eL)
@@ -251,6 +257,9 @@ func c10GenOp(t *rapid.T) c10Op {
 		return c10Op{Op: "decrypt-garbage", Data: gen.Fill(t, "ct", n)}
 	default:
 		n := gen.Len(t, "ptlen", 0, 100, 0, 15, 16)
+		if rapid.Bool().Draw(t, "bytebudget") {
+			return c10Op{Op: "encrypt-fault", Data: gen.Fill(t, "pt", n), Entropy: c10Entropy(t), Budget: rapid.IntRange(1, 40).Draw(t, "budget")}
+		}
 		return c10Op{Op: "encrypt-fault", Data: gen.Fill(t, "pt", n), Entropy: c10Entropy(t), FailAt: rapid.IntRange(1, 3).Draw(t, "failat")}
 	}
 }
@@ -322,6 +331,17 @@ func TestC10(t *testing.T) {
 				probe.WithEntropy(nil, 0, func(en *probe.Entropy) { _, _ = x.Encrypt(make([]byte, n)); reads = en.Reads })
 				for k := 1; k <= reads+1; k++ {
 					c10Table.Eval(c, c10In{Encr: e, Key: key, Ops: []c10Op{{Op: "encrypt-fault", Data: make([]byte, n), FailAt: k}}})
+				}
+				// ... and at every octet: the source runs dry after b octets, for every b below what the fault-free run consumed
+				consumed := 0
+				probe.WithEntropy(nil, 0, func(en *probe.Entropy) {
+					_, _ = x.Encrypt(make([]byte, n))
+					for _, ch := range en.Chunks {
+						consumed += len(ch)
+					}
+				})
+				for b := 1; b < consumed && c.Failures() <= 5; b++ {
+					c10Table.Eval(c, c10In{Encr: e, Key: key, Ops: []c10Op{{Op: "encrypt-fault", Data: make([]byte, n), Budget: b}}})
 				}
 			}
 		}
